@@ -8,7 +8,7 @@
  *   [NCROSS, NCROSS+256)     one case per byte value b: both encoders over b at every starting length 0..40, all 256
  *                            byte values in one string, decode round trip, decoder over '%' b x for all 256 x
  *   [NCROSS+256, ...)        PRNG-derived: random URIs from component alphabets, random encoder inputs, decoder inputs
- *                            with malformed escapes, stand-alone query strings
+ *                            with malformed escapes, stand-alone query strings (--p0 inputs per case index, default 1)
  *
  * Oracle: the expected fields come from the GENERATOR (it knows which bytes it put where), never from scanning the
  * assembled text the way the parser does.  Where the library's documented behaviour differs from a naive reading this
@@ -132,7 +132,7 @@ static const char KEY_SLASH_QUERY[] = "C13:defect:slash-in-query-without-path-ex
 /* ------------------------------------------------------------------ run-wide counters (flushed once) */
 static uint64_t n_cross, n_sweep, n_random_uri, n_parse_ok, n_parse_rejected, n_cursors, n_builder, n_builder_rejected, n_enc_path,
     n_enc_param, n_dec, n_dec_rejected, n_it_params, n_it_queries, n_list_calls, n_ambiguous, n_defect_colon, n_defect_slash,
-    n_defect_colon_bad, n_defect_slash_bad, n_py, n_dec_sweep, n_enc_start_lengths;
+    n_defect_colon_bad, n_defect_slash_bad, n_py, n_dec_sweep, n_enc_start_lengths, n_random_inputs;
 static unsigned s_defect_reported[2];
 static FILE *s_py;
 static uint64_t s_case;
@@ -814,6 +814,11 @@ static void parse_check(struct gen *g) {
     }
     static struct verdict v;
     compare_uri(&v, g, &uri, false);
+    if (mon_sampling()) {
+        mon_sample("[scheme='%s' userinfo='%s' host='%s' port=%u path='%s' query='%s'] ", printable(uri.scheme.ptr, uri.scheme.len),
+                   printable(uri.userinfo.ptr, uri.userinfo.len), printable(uri.host_name.ptr, uri.host_name.len), uri.port,
+                   printable(uri.path.ptr, uri.path.len), printable(uri.query_string.ptr, uri.query_string.len));
+    }
     if (uri.uri_str.buffer == in) {
         v_add(&v, "uri_str", "uri_str aliases the caller's text instead of owning a copy; ");
     }
@@ -1531,6 +1536,7 @@ int main(int argc, char **argv) {
     char path[4096];
     snprintf(path, sizeof(path), "%s/py.%d", mon_run.outdir, mon_run.slice);
     s_py = fopen(path, "w");
+    long reps = mon_run.param[0] > 0 ? mon_run.param[0] : 1;
     uint64_t c;
     while (mon_next_case(&c)) {
         mon_case_begin(c);
@@ -1540,15 +1546,19 @@ int main(int argc, char **argv) {
         } else if (c < NCROSS + NSWEEP) {
             sweep_case((unsigned)(c - NCROSS));
         } else {
-            unsigned k = (unsigned)mon_below(&mon_case_rng, 20);
-            if (k < 8) {
-                random_uri_case();
-            } else if (k < 13) {
-                random_encode_case();
-            } else if (k < 16) {
-                random_decode_case();
-            } else {
-                random_query_case();
+            /* --p0 = PRNG-derived inputs per case index (thorough tier: 8), all from this case's generator */
+            for (long rep = 0; rep < reps && mon_violations() < 10; ++rep) {
+                unsigned k = (unsigned)mon_below(&mon_case_rng, 20);
+                if (k < 8) {
+                    random_uri_case();
+                } else if (k < 13) {
+                    random_encode_case();
+                } else if (k < 16) {
+                    random_decode_case();
+                } else {
+                    random_query_case();
+                }
+                ++n_random_inputs;
             }
         }
         mon_case_end(mon_flag_count() >= 1);
@@ -1561,6 +1571,7 @@ int main(int argc, char **argv) {
     MON_CHECK(st.live_blocks == 0, "C13:leak", "%llu guard blocks live at the end of the run", (unsigned long long)st.live_blocks);
     mon_count("cross_product_cases", n_cross);
     mon_count("byte_value_sweep_cases", n_sweep);
+    mon_count("random_inputs", n_random_inputs);
     mon_count("random_uri_cases", n_random_uri);
     mon_count("parse_accepted", n_parse_ok);
     mon_count("parse_rejected", n_parse_rejected);
